@@ -1,3 +1,384 @@
 package main
 
-func cmdCheck(args []string) {}
+// govc check <Cxx> quick|thorough : the registered property check.
+
+import (
+	"encoding/json"
+	"fmt"
+	"os"
+	"path/filepath"
+	"regexp"
+	"sort"
+	"strconv"
+	"strings"
+	"time"
+
+	"golang.org/x/tools/go/ssa"
+)
+
+type propFile struct {
+	ID        string      `json:"id"`
+	Packages  []string    `json:"packages"`
+	Select    []*selector `json:"select"`
+	Floor     int         `json:"floor"`
+	QuickMs   int         `json:"timeout_quick_ms"`
+	ThorMs    int         `json:"timeout_thorough_ms"`
+	Level     string      `json:"level"`
+	Assume    []string    `json:"assumptions"`
+	NotDecided []string   `json:"not_decided"`
+	Bounded   []string    `json:"bounded"`
+	Extra     []string    `json:"extra"` // additional analyses: "globals" (C20 F1), "registry" (C03a)
+	Explain   string      `json:"explanation"`
+}
+
+type knownFinding struct {
+	Property   string `json:"property"`
+	Obligation string `json:"obligation"`
+	Input      string `json:"input,omitempty"`
+	What       string `json:"what"`
+}
+
+type knownFile struct {
+	Findings []knownFinding           `json:"findings"`
+	Fixed    []map[string]interface{} `json:"fixed"`
+}
+
+func loadKnown() *knownFile {
+	kf := &knownFile{}
+	b, err := os.ReadFile("/verif/known_findings.json")
+	if err == nil {
+		json.Unmarshal(b, kf)
+	}
+	return kf
+}
+
+func cmdCheck(args []string) {
+	if len(args) < 1 {
+		fmt.Fprintln(os.Stderr, "usage: govc check Cxx [quick|thorough]")
+		os.Exit(2)
+	}
+	id := args[0]
+	tier := "quick"
+	if len(args) > 1 {
+		tier = args[1]
+	}
+	if t := os.Getenv("VERIF_TIER"); t == "quick" || t == "thorough" {
+		if len(args) < 2 {
+			tier = t
+		}
+	}
+	seed := 0
+	if s := os.Getenv("VERIF_SEED"); s != "" {
+		seed, _ = strconv.Atoi(s)
+	}
+	t0 := time.Now()
+	var pf propFile
+	b, err := os.ReadFile(filepath.Join("/verif/props", id+".json"))
+	if err != nil {
+		fmt.Fprintln(os.Stderr, "no property file:", err)
+		os.Exit(2)
+	}
+	if err := json.Unmarshal(b, &pf); err != nil {
+		fmt.Fprintln(os.Stderr, "bad property file:", err)
+		os.Exit(2)
+	}
+	timeout := pf.QuickMs
+	if timeout == 0 {
+		timeout = 10000
+	}
+	if tier == "thorough" {
+		timeout = pf.ThorMs
+		if timeout == 0 {
+			timeout = 60000
+		}
+		useCache = false
+	}
+	replayDir := filepath.Join("/verif/replays", id)
+	os.MkdirAll(replayDir, 0o755)
+	violations := 0
+	report := func(name string, payload map[string]interface{}, confirmed bool) {
+		violations++
+		slug := symSafe(name)
+		if len(slug) > 150 {
+			slug = slug[:150]
+		}
+		path := filepath.Join(replayDir, slug+".json")
+		payload["property"] = id
+		payload["obligation"] = name
+		jb, _ := json.MarshalIndent(payload, "", " ")
+		os.WriteFile(path, jb, 0o644)
+		if confirmed {
+			fmt.Printf("VIOLATION property=%s replay=%s\n", id, path)
+		} else {
+			fmt.Printf("VIOLATION property=%s replay=%s no-failing-input-found\n", id, path)
+		}
+	}
+
+	ctx, err := loadProgram(repoDir(), pf.Packages)
+	ev := map[string]interface{}{}
+	if err != nil {
+		report("load", map[string]interface{}{"error": err.Error(), "what": "the packages under contract no longer load/type-check with -tags verif"}, false)
+		writeEvidence(id, tier, seed, &pf, ev, nil, nil, violations, t0, nil)
+		os.Exit(1)
+	}
+	for _, ce := range ctx.cs.Errors {
+		report("contract-file:"+ce, map[string]interface{}{"error": ce}, false)
+	}
+	var fns []*ssa.Function
+	for _, k := range ctx.sortedFuncKeys() {
+		for _, s := range pf.Select {
+			if s.re == nil {
+				s.re = regexp.MustCompile(s.Funcs)
+			}
+			if s.re.MatchString(k) {
+				fns = append(fns, ctx.funcs[k])
+				break
+			}
+		}
+	}
+	results := verifyAll(ctx, fns, pf.Select, timeout, true)
+	kf := loadKnown()
+	known := map[string]knownFinding{}
+	for _, f := range kf.Findings {
+		if f.Property == id {
+			known[f.Obligation] = f
+		}
+	}
+	var all []*Obl
+	nSel, nOK := 0, 0
+	knownHit := map[string]bool{}
+	for _, r := range results {
+		for i, o := range r.Obls {
+			if o.Status == "" {
+				continue
+			}
+			nSel++
+			all = append(all, o)
+			if o.Status == "unsat" {
+				nOK++
+				continue
+			}
+			if f, ok := known[o.Name]; ok {
+				fmt.Printf("KNOWN-FINDING: property=%s %s %s\n", id, o.Name, f.What)
+				o.Assumed = true
+				knownHit[o.Name] = true
+				continue
+			}
+			payload := map[string]interface{}{"kind": o.Kind, "function": o.Func, "position": o.PosStr, "clause": o.Text, "solver": o.Solver, "status": o.Status,
+				"solver_output": truncate(o.Output+o.Model, 6000), "fatal": r.Fatal}
+			confirmed := false
+			if o.Status == "sat" {
+				rp := replayObligation(ctx, r, i, o)
+				payload["replay"] = rp
+				if c, ok := rp["confirmed"].(bool); ok && c {
+					confirmed = true
+				}
+			}
+			report(o.Name, payload, confirmed)
+		}
+	}
+	// vacuity: contracts must be satisfiable, some return must be reachable
+	vac := vacuityChecks(results)
+	for _, v := range vac {
+		report("vacuity:"+v, map[string]interface{}{"what": "contract of " + v + " is contradictory (no execution satisfies requires/invariants and reaches a return)"}, false)
+	}
+	extraEv := map[string]interface{}{}
+	for _, x := range pf.Extra {
+		runExtra(ctx, x, id, extraEv, report, known)
+	}
+	if nSel+intOf(extraEv["extra_obligations"]) < pf.Floor {
+		report("floor", map[string]interface{}{"what": fmt.Sprintf("only %d obligations generated, floor is %d: contracts or functions disappeared", nSel, pf.Floor)}, false)
+	}
+	writeEvidence(id, tier, seed, &pf, extraEv, results, all, violations, t0, ctx)
+	if violations > 0 {
+		os.Exit(1)
+	}
+	fmt.Printf("OK property=%s obligations=%d discharged=%d known=%d wall=%.1fs\n", id, nSel+intOf(extraEv["extra_obligations"]), nOK+intOf(extraEv["extra_discharged"]), len(knownHit), time.Since(t0).Seconds())
+}
+
+func intOf(x interface{}) int {
+	if v, ok := x.(int); ok {
+		return v
+	}
+	return 0
+}
+
+func vacuityChecks(results []*FuncResult) []string {
+	var bad []string
+	type job struct {
+		r *FuncResult
+	}
+	ch := make(chan string, len(results))
+	n := 0
+	for _, r := range results {
+		if len(r.Fatal) > 0 || len(r.Script) == 0 || len(r.RetReach) == 0 {
+			continue
+		}
+		n++
+		go func(r *FuncResult) {
+			solverSem <- struct{}{}
+			defer func() { <-solverSem }()
+			var b strings.Builder
+			b.WriteString(header())
+			for _, d := range r.Decl {
+				b.WriteString(d + "\n")
+			}
+			for _, l := range r.Script {
+				if strings.HasPrefix(l, ";;OBL ") {
+					continue
+				}
+				b.WriteString(l + "\n")
+			}
+			fmt.Fprintf(&b, "(assert %s)\n(check-sat)\n", or(r.RetReach...))
+			script := b.String()
+			if _, ok := cacheGet("vac:" + script); ok {
+				ch <- ""
+				return
+			}
+			f := tmpFile("vac", script)
+			defer os.Remove(f)
+			out, _ := runSolver(contextBG(), solvers[0], f, 3000, false)
+			first := strings.TrimSpace(strings.SplitN(out, "\n", 2)[0])
+			if first == "unsat" {
+				ch <- r.Key
+				return
+			}
+			if first == "sat" {
+				cachePut("vac:"+script, "sat")
+			}
+			ch <- ""
+		}(r)
+	}
+	for i := 0; i < n; i++ {
+		if s := <-ch; s != "" {
+			bad = append(bad, s)
+		}
+	}
+	sort.Strings(bad)
+	return bad
+}
+
+func writeEvidence(id, tier string, seed int, pf *propFile, extra map[string]interface{}, results []*FuncResult, all []*Obl, violations int, t0 time.Time, ctx *Ctx) {
+	level := pf.Level
+	if level == "" {
+		level = "proof"
+	}
+	nObl, nDis, nKnown := 0, 0, 0
+	bySolver := map[string]int{}
+	byKind := map[string]int{}
+	secs := 0.0
+	var samples []interface{}
+	var undischarged []interface{}
+	for _, o := range all {
+		nObl++
+		k := o.Kind
+		if i := strings.Index(k, ":"); i >= 0 {
+			k = k[:i]
+		}
+		byKind[k]++
+		secs += o.Secs
+		if o.Status == "unsat" {
+			nDis++
+			bySolver[strings.TrimSuffix(o.Solver, " (cached)")]++
+			if len(samples) < 12 && (k == "post" || k == "inv-pres" || len(samples) < 4) {
+				samples = append(samples, map[string]interface{}{"obligation": o.Name, "kind": o.Kind, "clause": o.Text, "backend": o.Solver, "seconds": round3(o.Secs)})
+			}
+		} else {
+			if o.Assumed {
+				nKnown++
+			}
+			undischarged = append(undischarged, map[string]interface{}{"obligation": o.Name, "status": o.Status, "known_finding": o.Assumed})
+		}
+	}
+	nObl += intOf(extra["extra_obligations"])
+	nDis += intOf(extra["extra_discharged"])
+	var funcs []interface{}
+	usedContracts := map[string]bool{}
+	noContract := map[string]bool{}
+	inlined := map[string]bool{}
+	notes := map[string]bool{}
+	notReach := []interface{}{}
+	for _, r := range results {
+		n := 0
+		for _, o := range r.Obls {
+			if o.Status != "" {
+				n++
+			}
+		}
+		if len(r.Fatal) > 0 {
+			notReach = append(notReach, map[string]interface{}{"function": r.Key, "why": r.Fatal})
+		}
+		funcs = append(funcs, map[string]interface{}{"function": r.Key, "obligations_selected": n, "ssa_instructions": r.Instrs})
+		for _, u := range r.Used {
+			usedContracts[u] = true
+		}
+		for _, u := range r.NoContr {
+			noContract[u] = true
+		}
+		for _, u := range r.Inlined {
+			inlined[u] = true
+		}
+		for _, u := range r.Notes {
+			notes[u] = true
+		}
+	}
+	trusted := []string{
+		"go/packages + go/types + go/ssa (x/tools v0.29.0) represent /repo's sources faithfully",
+		"govc's SSA->SMT translation (tested by /verif/selftest must-fail corpus, not proved)",
+		"SMT solvers z3 4.8.12, z3 5.1.0, cvc5 1.0.3",
+		"slice lengths/capacities <= 2^48 and allocation counter < 2^62 (machine integers are otherwise exact 64/32/16/8-bit vectors)",
+		"partial correctness: a callee under contract is assumed to return or panic; its panic-freedom is its own obligation set",
+	}
+	if ctx != nil {
+		var ext []string
+		for k := range usedExternals {
+			ext = append(ext, k+": "+trustedList[k])
+		}
+		sort.Strings(ext)
+		for _, x := range ext {
+			trusted = append(trusted, "external model "+x)
+		}
+		for pp, axs := range ctx.cs.Axioms {
+			for _, a := range axs {
+				trusted = append(trusted, "axiom ("+shortKey(pp)+"): "+a.Text)
+			}
+		}
+	}
+	cov := map[string]interface{}{
+		"obligations": nObl, "discharged": nDis, "known_findings": nKnown,
+		"checker_cmd":  "/verif/bin/govc check " + id + " " + tier,
+		"trusted_base": trusted,
+		"samples":      samples,
+		"functions_under_contract": funcs,
+		"obligations_by_kind":      byKind,
+		"discharged_by_backend":    bySolver,
+		"solver_seconds":           round3(secs),
+		"undischarged":             undischarged,
+		"contracts_relied_on":      sortedKeys(usedContracts),
+		"callees_without_contract_havocked_with_inferred_frame": sortedKeys(noContract),
+		"callees_inlined":          sortedKeys(inlined),
+		"model_imprecisions":       sortedKeys(notes),
+		"functions_outside_reach":  notReach,
+		"not_decided":              pf.NotDecided,
+		"bounded_stand_ins":        pf.Bounded,
+		"explanation":              pf.Explain,
+	}
+	for k, v := range extra {
+		cov[k] = v
+	}
+	if nObl == 0 {
+		cov["obligations"] = 0
+	}
+	evd := map[string]interface{}{
+		"property_id": id, "tier": tier, "seed": seed, "level": level, "coverage": cov,
+		"assumptions": pf.Assume, "wall_s": round3(time.Since(t0).Seconds()), "violations": violations,
+	}
+	if level == "other" && pf.Explain != "" {
+		cov["explanation"] = pf.Explain
+	}
+	jb, _ := json.MarshalIndent(evd, "", " ")
+	os.MkdirAll("/verif/evidence", 0o755)
+	os.WriteFile(filepath.Join("/verif/evidence", id+".json"), jb, 0o644)
+}
+
+func round3(x float64) float64 { return float64(int(x*1000+0.5)) / 1000 }
